@@ -23,9 +23,11 @@ ParamSets(cls, dec) ==
   ELSE IF cls = "Linear" THEN { <<>>, <<OneN>>, <<Base(1, dec), Num(TRUE, 0, Half(dec)), ZeroN>> } \cup { <<x, OneN>> : x \in Pal(dec) }
   ELSE Tuples(Arity[cls], dec)
 Formulas == { <<"x">>, <<"2.000", "*", "x", "+", "a">>, <<"max", "(", "x", ",", "a", ")", "^", "2">> }
-MkTerm(nm, cls, p, h, f) == [name |-> nm, cls |-> cls, p |-> p, h |-> h, f |-> f]
+MkTerm(nm, cls, p, h, f) == [name |-> nm, cls |-> cls, p |-> p, h |-> h, f |-> f, fv |-> <<>>]
 TermsOf(cls, dec) ==
   IF cls = "Function" THEN { MkTerm("t", cls, <<>>, OneN, f) : f \in Formulas }
+                           \cup { [MkTerm("t", cls, <<>>, OneN, <<"c", "*", "x", "+", "d">>) EXCEPT !.fv = fv] :
+                                    fv \in { <<[n |-> "c", v |-> x], [n |-> "d", v |-> OneN]>> : x \in Pal(dec) } \cup { <<[n |-> "d", v |-> ZeroN], [n |-> "c", v |-> Num(FALSE, 2, Half(dec))]>> } }
   ELSE { MkTerm("t", cls, p, h, <<>>) : p \in ParamSets(cls, dec), h \in (IF HasHeight(cls) THEN Heights(dec) ELSE {OneN}) }
 
 TNorms == {"AlgebraicProduct", "BoundedDifference", "DrasticProduct", "EinsteinProduct", "HamacherProduct", "Minimum", "NilpotentMinimum"}
